@@ -602,7 +602,7 @@ const OPEN_FRAGS: &[&str] = &[
     "data", "a", "b", "x1", "_n_", "set", "run", "proc", "sql", "select", "from", "where", "if", "then", "else", "do", "end",
     "input", "put", "format", "array", "lt", "le", "eq", "ne", "gt", "ge", "and", "or", "not", "in", "eqt", "_all_", "_null_",
     "datalines", "cards", "lines", "datalines4", "cards4", "lines4", "DATALINES", "é", "дата", "a_é", ";", ";", ";", " ", " ",
-    "\n", "\t", "\u{a0}", "\u{2028}", "*", "**", "* c;", "*;", "/", "/* c */", "/* ; */", "/*", "'a'", "'a''b'", "'a'd", "'a'dt",
+    "\n", "\t", "\u{a0}", "\u{2028}", "\u{b}", "\u{c}", "\r", "\u{85}", "\u{1680}", "\u{3000}", "*", "**", "* c;", "*;", "/", "/* c */", "/* ; */", "/*", "'a'", "'a''b'", "'a'd", "'a'dt",
     "'a't", "'a'n", "'a'b", "'41'x", "'4'x", "'+1'x", "\"a\"", "\"a\"\"b\"", "\"a\"x", "\"41\"X", "\"a\"dt", "'", "\"", "'a",
     "1", "12", "1.5", ".5", "1.", "1e5", "1E-5", "1e", "1e+", "0ffx", "0ff", "1fx", "12ab", "1ex", "9ffffffffffffffffx", "007",
     "18446744073709551616", "(", ")", "{", "}", "[", "]", "!", "!!", "¦", "¦¦", "|", "||", "¬", "^", "~", "∘", "¬=", "^=", "~=",
@@ -704,6 +704,14 @@ pub fn c12(ctx: &Ctx, st: &mut Stats) {
     let n = ctx.draws(150_000, 3_000_000);
     for _ in 0..n {
         let p = grammar::gen_program(&mut r, ctx.tier.gcfg());
+        c12_one(st, &p);
+    }
+    // deep nesting: beyond every initial capacity (mode stack 40, pending-statement bit vector)
+    let n = ctx.draws(4_000, 80_000);
+    for _ in 0..n {
+        let levels = r.pick(&[3usize, 8, 17, 31, 32, 33, 40, 41, 42, 63, 64, 65, 100, 130, 260]);
+        let p = grammar::gen_deep_program(&mut r, ctx.tier.gcfg(), levels);
+        st.count("deep_programs", 1);
         c12_one(st, &p);
     }
 }
@@ -854,8 +862,14 @@ pub fn c15(ctx: &Ctx, st: &mut Stats) {
     let n = ctx.draws(120_000, 2_500_000);
     for _ in 0..n {
         // choose A
-        let (a, a_src) = match r.below(10) {
-            0..=3 => {
+        let (a, a_src) = match r.below(40) {
+            39 => {
+                let levels = r.pick(&[8usize, 31, 32, 33, 40, 41, 64, 65, 130]);
+                let p = grammar::gen_deep_program(&mut r, ctx.tier.gcfg(), levels);
+                st.count("deep_prefixes", 1);
+                (p.s.trim_end().to_string(), "grammar-boundary")
+            }
+            x if x % 10 <= 3 => {
                 let p = grammar::gen_program(&mut r, ctx.tier.gcfg());
                 // cut at a recorded boundary
                 let bs: Vec<usize> = p.marks.iter().filter_map(|m| if let Mark::Boundary { pos } = m { Some(*pos) } else { None }).collect();
@@ -866,7 +880,7 @@ pub fn c15(ctx: &Ctx, st: &mut Stats) {
                     (p.s[..b].to_string(), "grammar-boundary")
                 }
             }
-            4..=6 => {
+            x if x % 10 <= 6 => {
                 let (mut s, _) = gen::general(&mut r, ctx.corpus, ctx.tier);
                 if r.chance(1, 2) {
                     s.push(';');
